@@ -725,8 +725,77 @@ def transforming_container_validator_stream(ctx, res):
                 res.violate("C01:invalid-value-held", "validate() fails on a configuration reached through accepted / refused operations only",
                             {"stream": "transforming-container-validator", "config_type": typed, "route": route, "error": str(e)[:100]})
 
+def edge_values_stream(ctx, res):
+    """edges of the leaf fields' domains, enumerated: (a) host names longer than a NetBIOS name that contain a letter which only
+    FOLDS into ASCII (K U+212A, ſ U+017F, ı U+0131, İ U+0130) — whatever is held must be a DNS name; (b) a file name that is a
+    symbolic link to nothing, given to a field that declares `exists=True` / 'file' / 'dir' (with and without start directory,
+    as attribute, list item, document entry, constructor keyword) — whatever is held must exist; (c) whole numbers given as text
+    above 2**53 next to a bound — what is held is the exact number and within the bound.  Judged by the declarative reading
+    `F.satisfies` of the declaration, not by the library's validators"""
+    import os
+    import cincoconfig as cc
+    tmp, keypath = P.setup(ctx)
+    d = os.path.join(tmp, "edge-links")
+    os.makedirs(d, exist_ok=True)
+    dangling = os.path.join(d, "current.pem")
+    if not os.path.islink(dangling):
+        os.symlink(os.path.join(d, "no-such-target.pem"), dangling)
+    good = os.path.join(d, "real.pem")
+    with open(good, "w") as fh:
+        fh.write("x")
+    live = os.path.join(d, "live.pem")
+    if not os.path.islink(live):
+        os.symlink(good, live)
+    hosts = ["\u212a8s-master-01.example.com", "node-\u017ftorage-01.example.com", "ma\u0131l-relay-primary.example.org", "\u0130stanbul-gateway.example.net",
+             "plain-host-name-01.example.com", "UPPER-CASE-HOST.EXAMPLE.COM"]
+    decls = []
+    for name in hosts:
+        decls.append(({"k": "hostname"}, lambda: cc.HostnameField(), name))
+        decls.append(({"k": "hostname", "allow_ipv4": False}, lambda: cc.HostnameField(allow_ipv4=False), name))
+    for ex in (True, "file", "dir"):
+        for sd in (None, d):
+            for name in (dangling, "current.pem", live, "live.pem", good):
+                if sd is None and not os.path.isabs(name):
+                    continue
+                decls.append(({"k": "filename", "exists": ex, "startdir": sd}, (lambda ex=ex, sd=sd: cc.FilenameField(exists=ex, startdir=sd)), name))
+    for text, lo, hi in (("9007199254740993", None, None), ("9007199254740993", -2 ** 53, 2 ** 53), ("18446744073709551615", 0, 2 ** 64 - 1), ("-9007199254740993", -2 ** 53, None)):
+        decls.append(({"k": "int", "min": lo, "max": hi}, (lambda lo=lo, hi=hi: cc.IntField(min=lo, max=hi)), text))
+    for spec, mk, value in decls:
+        for route in ("attribute", "list item", "load_tree", "constructor"):
+            s = cc.Schema()
+            s.sec.one = mk()
+            s.sec.many = cc.ListField(mk(), default=lambda: [])
+            case = {"stream": "edge-values", "field": {k: (v if not isinstance(v, str) or "/" not in v else "<dir>") for k, v in spec.items()},
+                    "value": value if "/" not in str(value) else os.path.basename(value) + (" (absolute)" if os.path.isabs(value) else ""), "route": route}
+            res.case(stable(case), kind="edge-values:" + spec["k"])
+            try:
+                if route == "attribute":
+                    cfg = s()
+                    cfg.sec.one = value
+                elif route == "list item":
+                    cfg = s()
+                    cfg.sec.many.append(value)
+                elif route == "load_tree":
+                    cfg = s()
+                    cfg.load_tree({"sec": {"one": value, "many": [value]}})
+                else:
+                    cfg = s(sec={"one": value})
+            except Exception:  # noqa
+                continue
+            for h in [cfg.sec.one] + list(cfg.sec.many):
+                if h is None:
+                    continue
+                sat = F.satisfies(spec, h)
+                if spec["k"] == "int" and sat is not False:
+                    sat = (h == int(value)) and (spec["min"] is None or h >= spec["min"]) and (spec["max"] is None or h <= spec["max"])
+                if sat is False:
+                    res.violate("C01:held-violates-declaration:edge", "a value accepted at an edge of the field's domain is held although it does not satisfy the declaration",
+                                dict(case, held=repr(h)))
+                    break
+
 def run(ctx, n_quick=250, n_thorough=8000):
     res = Result()
+    guard(res, "C01", edge_values_stream, ctx, res)
     guard(res, "C01", transforming_container_validator_stream, ctx, res)
     guard(res, "C01", chain_and_owner_stream, ctx, res)
 
